@@ -354,3 +354,132 @@ func genHiderCase(r *Rand, w *bufio.Writer) {
 	emit("state 0")
 	emit("state 1")
 }
+
+// `h-cons gen cons-cheaters <seed> <n>`: seven equal validators in dense gossip; in the first epoch a
+// validator late in the canonical order forks early and one early in the canonical order forks several
+// frames later (so the cheater lists of successive blocks are [6], …, [2,6]); in the second epoch a
+// third validator forks alone. The application keeps every block as handed over; `allblocks` at the
+// end compares all of them.
+func init() {
+	Register("cons-cheaters", &Stream{Gen: genCheaters, NewRunner: func() Runner { return newConsRunner() }})
+}
+
+func genCheaters(r *Rand, n int, tier string, w *bufio.Writer) {
+	for i := 0; i < n; i++ {
+		fmt.Fprintf(w, "# case cheaters-%d\n", i)
+		genCheatersCase(r, w)
+	}
+}
+
+func genCheatersCase(r *Rand, w *bufio.Writer) {
+	gr := newConsRunner()
+	emit := func(format string, a ...interface{}) (res string) {
+		line := fmt.Sprintf(format, a...)
+		fmt.Fprintln(w, line)
+		defer func() {
+			if p := recover(); p != nil {
+				res = "panic"
+			}
+		}()
+		return gr.Step(line)
+	}
+	const nv = 7
+	vs := "1:1 2:1 3:1 4:1 5:1 6:1 7:1"
+	emit("vals %s", vs)
+	emit("seal 1 %d %s", 9+r.Intn(3), vs)
+	emit("seal 2 %d %s", 5+r.Intn(3), vs)
+	emit("inst 0 3")
+	emit("inst 1 %d", r.Intn(4))
+	type head struct{ n, seq, lamport uint64 }
+	next := uint64(1)
+	var all []uint64
+	// (epoch, round) at which a validator (index) creates a fork
+	late, early, third := 4+r.Intn(3), r.Intn(3), r.Intn(nv)
+	forkAt := map[[2]int]int{{1, 2}: late, {1, 6 + r.Intn(2)}: early, {2, 1 + r.Intn(2)}: third}
+	for epoch := 1; epoch <= 3; epoch++ {
+		heads := map[int][]head{}
+		sealed := false
+		create := func(self int, sp *head, others []head) {
+			seq, lamport := uint64(1), uint64(1)
+			var pl []string
+			if sp != nil {
+				seq, lamport = sp.seq+1, sp.lamport+1
+				pl = append(pl, fmt.Sprint(sp.n))
+			}
+			for _, p := range others {
+				pl = append(pl, fmt.Sprint(p.n))
+				if lamport <= p.lamport {
+					lamport = p.lamport + 1
+				}
+			}
+			pj := strings.Join(pl, ",")
+			if pj == "" {
+				pj = "-"
+			}
+			n := next
+			next++
+			emit("build 0 %d c=%d s=%d l=%d p=%s", n, self+1, seq, lamport, pj)
+			res := emit("process 0 %d", n)
+			all = append(all, n)
+			// a fork adds a tip, an ordinary event replaces the tip it extends
+			nh := head{n, seq, lamport}
+			replaced := false
+			for i, h := range heads[self] {
+				if sp != nil && h.n == sp.n {
+					heads[self][i] = nh
+					replaced = true
+				}
+			}
+			if !replaced {
+				heads[self] = append(heads[self], nh)
+			}
+			for _, f := range strings.Fields(res) {
+				if strings.HasPrefix(f, "E=") && int(Atou(f[2:])) > epoch {
+					sealed = true
+				}
+			}
+		}
+		for round := 0; round < 40 && !sealed && epoch < 3; round++ {
+			for _, self := range r.Perm(nv) {
+				if sealed {
+					break
+				}
+				var others []head
+				for o := 0; o < nv; o++ {
+					if o == self || len(heads[o]) == 0 || r.Chance(1, 6) {
+						continue
+					}
+					if len(heads[o]) > 1 && r.Chance(1, 2) {
+						others = append(others, heads[o]...) // sees both sides of a fork
+					} else {
+						others = append(others, heads[o][r.Intn(len(heads[o]))])
+					}
+				}
+				var sp *head
+				if hs := heads[self]; len(hs) > 0 {
+					h := hs[r.Intn(len(hs))]
+					sp = &h
+				}
+				if v, ok := forkAt[[2]int{epoch, round}]; ok && v == self && sp != nil {
+					// two events on the same self-parent
+					spc := *sp
+					create(self, &spc, others)
+					if sealed {
+						break
+					}
+					heads[self] = append(heads[self], spc) // the old tip stays extendable: the second one forks
+					create(self, &spc, others[:len(others)/2])
+					continue
+				}
+				create(self, sp, others)
+			}
+		}
+	}
+	for _, n := range all {
+		emit("process 1 %d", n)
+	}
+	emit("allblocks 0")
+	emit("allblocks 1")
+	emit("state 0")
+	emit("state 1")
+}
